@@ -1759,6 +1759,9 @@ int tls_decrypt_recv(TLS_CONNECT *conn)
 	if (tls_record_decrypt(hmac_ctx, dec_key, seq_num,
 		record, recordlen,
 		conn->databuf, &conn->datalen) != 1) {
+		// nothing was received: a later tls_recv() must not copy from the stale data pointer
+		conn->data = conn->databuf;
+		conn->datalen = 0;
 		error_print();
 		return -1;
 	}
